@@ -34,10 +34,27 @@ def sample_of(spec, exe, limit=60):
 
 # ------------------------------------------------------------------ trace runner
 def run_trace(prop, spec, loop_seed):
-    exe = execute(spec, loop_seed=loop_seed)
+    hist = spec.get('history') or {}
+    quiescent = None
+    state = dict(n=0)
+    if hist.get('mid'):
+        from .jobs import inspect_everything
+
+        def quiescent(trace, reg, loop, nxt):
+            # read-only queries in the middle of the run, at quiescent points
+            state['n'] += 1
+            if state['n'] % 2 == 0:
+                inspect_everything(reg[spec['id']], reg)
+    exe = execute(spec, loop_seed=loop_seed, quiescent=quiescent)
     m = Model(exe)
     out = Out(prop)
     MONITORS[prop](m, out)
+    if hist.get('pre'):
+        out.count('runs preceded by inspections / neutral edit pairs')
+    if hist.get('mid'):
+        out.count('runs with read-only API sweeps in the middle')
+    if hist.get('post'):
+        out.count('runs followed by a read-only API sweep before the final readings')
     if exe.verdict[0] in ('wedged', 'horizon') and prop != 'C03':
         # the run did not terminate: that is C03's verdict; clauses that need
         # a finished run were not evaluated
@@ -305,9 +322,16 @@ def run_poll(prop, spec, loop_seed):
                 can = e
         return ent, ret, rai, can
 
+    mid = bool((spec.get('history') or {}).get('mid'))
+
     def poll(trace, reg, loop, nxt, final=False):
         state['polls'] += 1
         now = loop.time()
+        if mid and not final and state['polls'] % 2 == 0:
+            # read-only queries in the middle of the run, at a quiescent point
+            from .jobs import inspect_everything
+            inspect_everything(reg[top_id], reg)
+            out.count('read-only API sweeps in the middle of a run')
         for vid, job in reg.items():
             if vid == top_id:
                 continue
@@ -375,6 +399,11 @@ def run_poll(prop, spec, loop_seed):
     if exe.terminated:
         poll(exe.trace, exe.reg, exe.loop, None, final=True)
     out.count('polls', state['polls'])
+    hist = spec.get('history') or {}
+    if hist.get('post') and exe.terminated:
+        out.count('final readings taken after a read-only API sweep')
+    if hist.get('pre'):
+        out.count('runs preceded by inspections / neutral edit pairs')
     m = Model(exe)
     return Case(out, m.fingerprint(), len(exe.trace.events), dict(spec=spec, loop_seed=loop_seed),
                 sample_of(spec, exe, 40), exe.loop.timer_ties)
